@@ -46,6 +46,13 @@ def checkServe (c : Case) : VM Unit := do
       for d in out5Diffs nw out do vfail "C18" s!"own-solution-C05-{(d.takeWhile (· != ' ')).toString}" d
       vstat "serve.valid-answered" 1
       vstat "serve.vehicles" out.vehicles.length
+  | "validbig" =>
+    -- a valid instance whose JSON body is larger than 2 MiB (same timetable, many unused locations)
+    if status != "200" then
+      vfail "C18" "valid-request-not-answered" s!"status={status} bytes={(get "bytes").headD "?"}"
+    else if (get "bigok").headD "0" != "1" then
+      vfail "C18" "large-request-answer-differs" s!"bytes={(get "bytes").headD "?"}"
+    else vstat "serve.big-answered" 1
   | _ => pure ()
   vstat s!"serve.kind-{kind}" 1
   vstat "serve.requests" 1
